@@ -111,7 +111,12 @@ CHECKS = {
          "text": "gather_den: applying any index map to every coefficient column moves whole elements (element i of the "
                  "result is element sigma(i) of the operand), names untouched, cleaning harmless (gather_clean_den); fill "
                  "positions hold zero (gatherFill_zero/_copy); gatherOp_moves_elements/gatherOp_wf: the executable gather over any "
-                 "operand list (joins included) yields whole elements of the owning operand or zero. 31 functions / methods / indexing forms are run on 0-3-d "
+                 "operand list (joins included) yields whole elements of the owning operand or zero. numpy's own index arithmetic is in the model "
+                 "(Np/Model/ShapeFns.lean) with multi-index characterisations: transpose_reads / transpose_moves_elements, reshape_reads, "
+                 "expand_dims_reads, repeat_reads, tile_reads, diagonal_reads, concatenate_reads, stack_reads, swapaxes_reads, moveaxis_reads "
+                 "(each: output shape, every listed position in range, output multi-index j reads the stated input multi-index; "
+                 "rearrangements are permutations of the positions); the run compares the model's gather lists with numpy on ~770 shape/argument "
+                 "combinations. 31 functions / methods / indexing forms are run on 0-3-d "
                  "arrays incl. transposed views; the expected placement comes from running the same numpy function on "
                  "index arrays and gathering in the Lean model; joins use operands with different names and terms.",
          "note": BASE_NOTE + " numpy's shape functions are assumed to be value-independent rearrangements (that is what running them on index arrays uses)."},
@@ -123,7 +128,10 @@ CHECKS = {
                  "det_array_is_det: the executable determinant on (stacks of) polynomial matrices denotes Matrix.det per position; "
                  "linear_is_weighted_sum / bilinear_is_sum_of_products / prod_is_product: the executable reductions always "
                  "succeed on well-formed arrays and element i is the weighted sum / sum of products / product of the listed elements. "
-                 "Weights come from numpy on unit vectors, product groups from numpy on index arrays.",
+                 "numpy's index arithmetic for the reductions is in the model (Np/Model/ReduceFns.lean): sum_axis_table / sum_axis_is_the_sum, "
+                 "sum_axes_table / sum_axes_single, cumsum_table, diff_table, diff_twice_table (1,-2,1), ediff1d_table, prod_groups_table "
+                 "(row of every output multi-index = exactly the inputs along the axis). "
+                 "Weights come from numpy on unit vectors, product groups from numpy on index arrays, and the model's own tables are compared with them in every run.",
          "note": BASE_NOTE + " Known findings D21 (matmul with 1-d operands) and D22 (prod over an axis tuple) are pinned by the package's docstrings/tests and reported as KNOWN-FINDING."},
  "C11": {"ref": "5/C11", "technique": "Lean 4 pattern theorems + decide over the regenerated registries (every registered function classified) + correspondence against numpy on constants",
          "text": "registry_classified (decide over the registries regenerated from /repo): every registered function has a "
@@ -143,7 +151,9 @@ CHECKS = {
                  "fuel_mono. divmod_terminates / divmod_total: enough fuel always exists - the candidate term strictly decreases in "
                  "the lexsort monomial order, which is well-founded on rows of one length (lexLt_wf), so quotient and remainder "
                  "exist for every dividend/divisor element; divmod_array_shape / _identity / _terminates / _zero_divisor lift all of "
-                 "it to arrays with broadcasting (divmodArr is what the driver runs). The implementation's loop is observed through a wrapper of "
+                 "it to arrays with broadcasting (divmodArr is what the driver runs). constant_divisor (non-zero constant divisor: r = 0 and q = f/c), "
+                 "exact_multiple (dividend = g*divisor: r = [] and q = g term by term, any number of indeterminates), quotient_unique, "
+                 "univariate_degree (one indeterminate: deg r < deg divisor), no_zero_terms. The implementation's loop is observed through a wrapper of "
                  "get_division_candidate (repeated state / 400 iterations = non-termination). q and r are compared element by "
                  "element with the Lean division; identity, exact multiples, constant divisors, degrees and the operator "
                  "spellings are checked with exact dictionary arithmetic.",
@@ -152,9 +162,13 @@ CHECKS = {
          "text": "header_roundtrip: names, storage keys and shape written into the text header parse back exactly, for "
                  "every number of names/terms and every shape incl. 0-d, whenever no name/key contains the separators "
                  "(splitSep_joinSep, ofDigits_digits proved from scratch); rows_restored: reshape(-1, nterms) undoes "
-                 "numpy.loadtxt's squeezing; reduce_roundtrip via C03. Pickle protocols 0-5, copy, deepcopy, .copy() and "
+                 "numpy.loadtxt's squeezing; file_roundtrip: the whole file (header line, one line per element, one number per stored term, "
+                 "comment cutting, splitting, squeeze, reshape(-1, nkeys), split into columns) loads back to the header and every coefficient "
+                 "column - 0-d, size-1, single-term and general arrays in one theorem, for every number codec that decodes what it encodes; "
+                 "file_layout; decimal_codec; reduce_roundtrip via C03. Pickle protocols 0-5, copy, deepcopy, .copy() and "
                  "savetxt/loadtxt over fmt/delimiter/header/comments x StringIO/BytesIO/paths run for real; the header "
-                 "line written by the implementation is compared with the Lean codec; plain files must load as arrays.",
+                 "line written by the implementation is compared with the Lean codec; files written with fmt='%d' are compared line by line with "
+                 "the model's file and read back by the model's loader (driver op textfile); plain files must load as arrays.",
          "note": BASE_NOTE + " The pickle byte format, copy's C paths and numpy's number formatting/parsing are exercised, not modelled."},
  "C16": {"ref": "5/C16", "technique": "Lean 4 proof at token level (printed terms = permutation of the non-zero terms, elision faithful, order = selected monomial order) + text-level correspondence with an independent reader",
          "text": "printed_terms_den / tokens_den: for every display setting the printed terms are a permutation of the stored "
